@@ -12,6 +12,9 @@ import traceback
 
 VERIF = os.path.dirname(os.path.dirname(os.path.abspath(__file__)))
 REPO = os.environ.get("VERIF_REPO", "/repo")
+# sensitivity runs only (tools/eval_seeded.py --private): evidence and new-* replays of a run against a patched private worktree go
+# to VERIF_OUT so that they never overwrite what the registered commands wrote for /repo; registered commands never set it
+OUT = os.environ.get("VERIF_OUT") or None
 DEPS = os.path.join(VERIF, ".deps")
 
 
@@ -252,7 +255,7 @@ class Ctx:
 
 
 def write_replay(pid, sig, case, clause, detail, prefix="new"):
-    d = os.path.join(VERIF, "replays", pid)
+    d = os.path.join(OUT or VERIF, "replays", pid)
     os.makedirs(d, exist_ok=True)
     h = hashlib.sha1((sig + canon(case)).encode()).hexdigest()[:12]
     path = os.path.join(d, f"{prefix}-{h}.json")
@@ -320,8 +323,8 @@ def finalize(ctx, col):
         "wall_s": round(time.time() - ctx.t0, 2),
         "violations": len(new),
     }
-    os.makedirs(os.path.join(VERIF, "evidence"), exist_ok=True)
-    with open(os.path.join(VERIF, "evidence", f"{ctx.pid}.json"), "w") as f:
+    os.makedirs(os.path.join(OUT or VERIF, "evidence"), exist_ok=True)
+    with open(os.path.join(OUT or VERIF, "evidence", f"{ctx.pid}.json"), "w") as f:
         json.dump(ev, f, indent=1, sort_keys=True, default=_json_default)
     print(f"{ctx.pid} tier={ctx.tier} seed={ctx.seed} evaluations={col.evaluations} "
           f"distinct_nontrivial={col.n_nontrivial} new_buckets={len(new)} known_seen={len(seen_known)} "
